@@ -27,12 +27,15 @@ FRESH_METHODS = {"copy", "deepcopy", "tolist", "item", "sum", "mean", "std", "va
                  "get_chemical_formula", "get_distance", "get_distances", "get_all_distances", "get_reciprocal_cell"}
 FRESH_FUNCS = {"len", "range", "isinstance", "int", "float", "str", "bool", "repr", "type", "id", "hash", "print", "copy", "deepcopy",
                "sum", "min", "max", "abs", "any", "all", "round", "hasattr", "format", "number_to_tuple",
-               # shallow copies: storing into the new container is not a write to the original (its *elements* are not tracked)
-               "dict", "list", "tuple", "set", "sorted", "frozenset"}
+               "get_array_module", "validate_device"}
+# shallow copies: storing into the new container is not a write to the original, but its ELEMENTS are still the caller's
+SHALLOW_FUNCS = {"dict", "list", "tuple", "set", "sorted", "frozenset"}
 # numpy functions returning (possibly) a view of their first argument; every other `np.*`/`xp.*` call allocates its result
 NP_VIEW_FUNCS = {"asarray", "asanyarray", "ascontiguousarray", "asfortranarray", "reshape", "ravel", "squeeze", "transpose", "swapaxes",
                  "moveaxis", "rollaxis", "atleast_1d", "atleast_2d", "atleast_3d", "broadcast_to", "expand_dims", "flip", "fliplr",
                  "flipud", "diagonal", "real", "imag", "view", "split", "array_split", "hsplit", "vsplit", "array"}
+# functions that write into their first argument
+NP_INPLACE_FUNCS = {"copyto", "put", "place", "putmask", "fill_diagonal", "put_along_axis", "shuffle"}
 STATE_ATTRS = {"metadata", "_metadata", "array", "_array", "_ensemble_axes_metadata"}
 
 
@@ -56,6 +59,7 @@ class Scan:
         self.callee_writes = callee_writes or {}   # function name -> {param name: [writes]}, + "__params__"
         self.fields = set(fields)                   # escaped fields: `self.<f>` is caller-owned
         self.escaped = []                           # fields assigned from an owned name in this function
+        self.shallow = set()                        # names bound to a shallow copy of owned data
 
     def expr_owned(self, node):
         """does the expression evaluate to (a view of / a reference into) caller-owned data?"""
@@ -75,6 +79,8 @@ class Scan:
                     return bool(attrs) and attrs[0] in STATE_ATTRS
                 if self.fields:
                     return bool(attrs) and attrs[0] in self.fields
+            if isinstance(node.value, ast.Name) and node.value.id in self.shallow:
+                return True            # an element of a shallow copy is still the caller's object
             return self.expr_owned(node.value)
         if isinstance(node, (ast.Tuple, ast.List)):
             return any(self.expr_owned(e) for e in node.elts)
@@ -100,7 +106,7 @@ class Scan:
                     return True            # a method of an owned object may hand back a view (reshape, T, view, get(...), __getitem__ …)
                 return False
             if isinstance(f, ast.Name):
-                if f.id in FRESH_FUNCS or (f.id[:1].isupper()):   # constructors build new objects (they may *store* the argument: escaped fields)
+                if f.id in FRESH_FUNCS or f.id in SHALLOW_FUNCS or (f.id[:1].isupper()):   # constructors build new objects (they may *store* the argument: escaped fields)
                     return False
                 return any(self.expr_owned(a) for a in node.args) or any(self.expr_owned(k.value) for k in node.keywords)
         return False
@@ -151,10 +157,15 @@ class Scan:
                 self.escaped.append(t.attr)
             return
         if isinstance(t, ast.Name) and value is not None:
+            self.shallow.discard(t.id)
             if self.expr_owned(value):
                 self.owned.add(t.id)
             else:
                 self.owned.discard(t.id)   # rebound to a copy / to something that is not caller-owned
+                if isinstance(value, ast.Call) and value.args and self.expr_owned(value.args[0]) and (
+                        (isinstance(value.func, ast.Name) and value.func.id in SHALLOW_FUNCS) or
+                        ast.unparse(value.func) in ("copy.copy", "copy")):
+                    self.shallow.add(t.id)
 
     def arg_owned(self, a):
         return self.expr_owned(a)
@@ -168,15 +179,42 @@ class Scan:
                 for pname, a in bound:
                     if self.arg_owned(a) and info.get(pname):
                         self.note(n, f"{n.func.id}({ast.unparse(a)[:30]}) -> {info[pname][0]}")
+                if any(isinstance(a, ast.Starred) and self.arg_owned(a) for a in n.args) and any(k != "__params__" for k in info):
+                    self.note(n, f"{n.func.id}(*…owned…) -> callee writes one of its parameters")
             if isinstance(n, ast.NamedExpr):
                 self.expr_owned(n)
+            if isinstance(n, (ast.ListComp, ast.SetComp, ast.GeneratorExp, ast.DictComp)):
+                for g in n.generators:      # comprehension variables over something owned refer into it
+                    if self.expr_owned(g.iter):
+                        for nm in ast.walk(g.target):
+                            if isinstance(nm, ast.Name):
+                                self.owned.add(nm.id)
+            if isinstance(n, ast.Call):
+                f = n.func
+                # dynamically named method of owned data: getattr(x, name)(…) may be any in-place operator
+                if isinstance(f, ast.Call) and isinstance(f.func, ast.Name) and f.func.id == "getattr" and f.args \
+                        and self.expr_owned(f.args[0]):
+                    self.note(n, ast.unparse(f)[:60] + "(…) (dynamically named method of caller-owned data)")
+                if isinstance(f, ast.Name) and f.id in ("setattr", "delattr") and n.args and self.expr_owned(n.args[0]):
+                    self.note(n, ast.unparse(n)[:60])
+                for kw in n.keywords:
+                    if kw.arg == "out" and self.expr_owned(kw.value):
+                        self.note(n, ast.unparse(n.func)[:40] + "(…, out=" + ast.unparse(kw.value)[:30] + ")")
+                if isinstance(f, ast.Attribute) and ast.unparse(f.value) in ("np", "xp", "numpy", "cp") and f.attr in NP_INPLACE_FUNCS \
+                        and n.args and self.expr_owned(n.args[0]):
+                    self.note(n, ast.unparse(n.func) + "(" + ast.unparse(n.args[0])[:30] + ", …)")
             if isinstance(n, ast.Call) and isinstance(n.func, ast.Attribute) and n.func.attr in ATOMS_MUTATORS:
                 if self.expr_owned(n.func.value):
                     self.note(n, ast.unparse(n.func)[:60] + "(…)")
 
     def block(self, stmts):
         for st in stmts:
-            if isinstance(st, (ast.FunctionDef, ast.AsyncFunctionDef, ast.ClassDef)):
+            if isinstance(st, ast.ClassDef):
+                continue
+            if isinstance(st, (ast.FunctionDef, ast.AsyncFunctionDef)):
+                saved = set(self.owned)
+                self.block(st.body)          # a nested function closes over the owned names; assume it is called
+                self.owned = saved | self.owned
                 continue
             if isinstance(st, ast.Assign):
                 self.calls(st.value)
@@ -302,6 +340,18 @@ def emit(src, site, mode):
                 sc = Scan({"self"}, True)
                 sc.block(n.body)
                 rows.append((f"{c.name}.{n.name}", sc.writes))
+    elif site["select"] == "operator_names":
+        # dunder operators that delegate with a literal method name: (method, delegate, literal)
+        for c in tree.body:
+            if not isinstance(c, ast.ClassDef):
+                continue
+            for n in c.body:
+                if isinstance(n, ast.FunctionDef) and n.name.startswith("__") and n.name.endswith("__"):
+                    for r in ast.walk(n):
+                        if isinstance(r, ast.Call) and isinstance(r.func, ast.Attribute) and isinstance(r.func.value, ast.Name) \
+                                and r.func.value.id == "self" and r.func.attr in ("_arithmetic", "_in_place_arithmetic") \
+                                and len(r.args) >= 2 and isinstance(r.args[1], ast.Constant) and isinstance(r.args[1].value, str):
+                            rows.append((n.name, [r.func.attr, r.args[1].value]))
     else:
         raise Unsupported(f"select {site['select']}")
     if not rows:
